@@ -75,8 +75,10 @@ func c03Elems(i int) []*gnmi.PathElem {
 		return []*gnmi.PathElem{{Name: "l", Key: map[string]string{"k": "10"}}, {Name: "x"}}
 	case 5:
 		return []*gnmi.PathElem{{Name: "a"}, {Name: "b"}}
+	case 6:
+		return []*gnmi.PathElem{{Name: "a"}}
 	}
-	return []*gnmi.PathElem{{Name: "a"}}
+	return []*gnmi.PathElem{{Name: "l", Key: map[string]string{"k": "1"}}}
 }
 
 // reference gNMI state machine on parsed elements
